@@ -730,6 +730,59 @@ type grammarBlock struct {
 	far, farPaged bool
 }
 
+// grammarJudge compares a sketch decoded from a grammar stream with what the
+// documentation assigns to the stream: bins, extreme indexes of each side,
+// emptiness and count ("" = agrees). Used by the enumeration and by its replay.
+func grammarJudge(dec *ddsketch.DDSketch, exp *SkModel) string {
+	if got, want := SketchContent(dec), exp.Content(); got != want {
+		return fmt.Sprintf("bins\n  got:  %s\n  want: %s", got, want)
+	}
+	for side, pr := range map[string][2]any{"positive": {dec.GetPositiveValueStore(), exp.Pos}, "negative": {dec.GetNegativeValueStore(), exp.Neg}} {
+		sd, em := pr[0].(store.Store), pr[1].(*model.MapStore)
+		lo, ok := em.Min()
+		hi, _ := em.Max()
+		mn, e1 := sd.MinIndex()
+		mx, e2 := sd.MaxIndex()
+		if sd.IsEmpty() != !ok || (ok && (e1 != nil || e2 != nil || mn != lo || mx != hi)) {
+			return fmt.Sprintf("the %s store reports empty=%v min=%d max=%d; its non-empty bins are %s", side, sd.IsEmpty(), mn, mx, ModelContent(em))
+		}
+	}
+	if total := exp.Total(); dec.IsEmpty() != (total == 0) || dec.GetCount() != total {
+		return fmt.Sprintf("empty=%v count=%v; the bins hold a total weight of %v", dec.IsEmpty(), dec.GetCount(), total)
+	}
+	return ""
+}
+
+// grammarBlocksOne: a two-bin block (weights 2 and 0.5, consecutive indexes) of the given layout.
+func grammarBlocksOne(neg bool, layout int, first int64) grammarBlock {
+	typ := byte(1)
+	if neg {
+		typ = 3
+	}
+	b := []byte{typ | byte(layout)<<2}
+	b = model.AppendUvarint(b, 2)
+	var bins []model.WireBin
+	switch layout {
+	case 1:
+		b = model.AppendVarint(b, first)
+		b = model.AppendVarfloat(b, 2)
+		b = model.AppendVarint(b, 1)
+		b = model.AppendVarfloat(b, 0.5)
+		bins = []model.WireBin{{Index: first, Count: 2}, {Index: first + 1, Count: 0.5}}
+	case 2:
+		b = model.AppendVarint(b, first)
+		b = model.AppendVarint(b, 1)
+		bins = []model.WireBin{{Index: first, Count: 1}, {Index: first + 1, Count: 1}}
+	default:
+		b = model.AppendVarint(b, first)
+		b = model.AppendVarint(b, 1)
+		b = model.AppendVarfloat(b, 2)
+		b = model.AppendVarfloat(b, 0.5)
+		bins = []model.WireBin{{Index: first, Count: 2}, {Index: first + 1, Count: 0.5}}
+	}
+	return grammarBlock{bytes: b, bins: bins, neg: neg}
+}
+
 // grammarBlocks enumerates the first blocks of the grammar (DESIGN.md section 4, C07).
 func grammarBlocks() []grammarBlock {
 	type blk = grammarBlock
@@ -848,6 +901,13 @@ func grammarShards(tier string) []mc.Shard {
 	for i, b := range all {
 		if i%17 == 0 || len(b.bins) == 0 {
 			second = append(second, b)
+		}
+	}
+	// ... plus, for each layout, a non-empty block far below and far above the
+	// first blocks' indexes (a first block of zero counts must leave nothing behind)
+	for layout := 1; layout <= 3; layout++ {
+		for _, f := range []int64{-300, 2000} {
+			second = append(second, grammarBlocksOne(false, layout, f), grammarBlocksOne(true, layout, f))
 		}
 	}
 	if tier == "thorough" {
@@ -1103,10 +1163,10 @@ func grammarShards(tier string) []mc.Shard {
 					exp.Neg.Add(k, c.Neg[k])
 				}
 				exp.Zero = c.Zero
-				if err != nil || SketchContent(dec) != exp.Content() {
+				if err != nil {
 					fails = append(fails, mc.Fail{Clause: "C07.accepts-valid-streams", Detail: fmt.Sprintf("stream % x into %s: err=%v want %s", stream, t, err, exp.Content())})
-				} else if total := exp.Total(); dec.IsEmpty() != (total == 0) || dec.GetCount() != total {
-					fails = append(fails, mc.Fail{Clause: "C07.accepts-valid-streams", Detail: fmt.Sprintf("stream % x into %s: empty=%v count=%v, bins total %v", stream, t, dec.IsEmpty(), dec.GetCount(), total)})
+				} else if d := grammarJudge(dec, exp); d != "" {
+					fails = append(fails, mc.Fail{Clause: "C07.accepts-valid-streams", Detail: fmt.Sprintf("stream % x into %s: %s", stream, t, d)})
 				}
 			}
 			if history[1] == "P-cleared-pages" || history[1] == "any" {
